@@ -14,15 +14,15 @@ T = {
  'C02': ("Coq atomicity proof (rollback exactness, restore_sorted lemma) for BaseNode/Node, BinaryNode, DAGNode heap models + fault-injection correspondence",
          "Theorems: any assignment that does not return normally leaves all links pointwise identical (all fault points: guards, duplicate name, pre/post hook); the except-branches are proved to undo the try-branches exactly. Tie: histories with 40% failing operations through the documented hook extension points on all four classes."),
  'C03': ("Coq invariant + path/lookup theorems on the Node heap model + vm_compute correspondence (path_name, sep, depth, find_full_path)",
-         "Theorems: sibling-name uniqueness is an invariant of all histories; path_name/depth/sep specifications; lookup round trip under the sep_safe guard (K3 outside). Tie: random histories over related names and separators, every node's path/sep/depth and lookups compared."),
- 'C20': ("Coq proof that the assertion switch only selects rejections (three heap models) + two-interpreter correspondence (BIGTREE_CONF_ASSERTIONS)",
+         "Theorems: sibling-name uniqueness is an invariant of all histories; path_name/depth/sep specifications; lookup round trip for separators of any length under the guard that no separator character occurs in a name (K3 outside). Tie: random histories over related names and separators, every node's path/sep/depth and lookups compared."),
+ 'C20': ("Coq proof that the assertion switch only selects rejections (three heap models) + two-interpreter correspondence (BIGTREE_CONF_ASSERTIONS) + static tie re-derived from the source on every run (every read of ASSERTIONS has the modelled shape)",
          "Theorems: a step accepted with checks on is computed identically with checks off (forest, binary, DAG). Tie: valid histories are run in-process (checks on) and in a child interpreter started with BIGTREE_CONF_ASSERTIONS='' (checks off), both compared with the model and with each other, plus a battery of library calls."),
 }
 GENERIC = {
  'C04': ("Coq functional-correctness proofs of the seven iterators against a route/level specification + vm_compute correspondence", "DESIGN.md 7/C04"),
  'C05': ("Coq proofs about the path-constructor model (prefix closure, reuse, order) + vm_compute correspondence over list/dict/DataFrame/polars entry points", "DESIGN.md 7/C05"),
  'C06': ("Coq export/import round-trip proofs (dict, nested dict, frames, Newick, printed tree) + vm_compute correspondence", "DESIGN.md 7/C06"),
- 'C07': ("Coq effect-skeleton proofs on the heap model (copy freshness, frame, independence) + runtime snapshot correspondence", "DESIGN.md 7/C07"),
+ 'C07': ("Coq effect-skeleton proofs on the heap model (copy freshness, frame, independence) with refinement theorems tying the skeletons to the algorithm models + runtime snapshot correspondence", "DESIGN.md 7/C07"),
  'C08': ("Coq proofs about the shift/copy/replace model (decision table, multi-pair refinement) + vm_compute correspondence over flag combinations", "DESIGN.md 7/C08"),
  'C09': ("Coq soundness/completeness proofs of the search model + vm_compute correspondence", "DESIGN.md 7/C09"),
  'C10': ("Coq invariant proof over DAG operation histories (heap model) + vm_compute correspondence", "DESIGN.md 7/C10"),
@@ -33,7 +33,7 @@ GENERIC = {
  'C15': ("Coq proofs that the diff model marks exactly the differing paths + vm_compute correspondence", "DESIGN.md 7/C15"),
  'C16': ("Coq graph-theoretic proofs about dag_iterator / ancestors / descendants / go_to + vm_compute correspondence", "DESIGN.md 7/C16"),
  'C17': ("Coq proofs of DAG export completeness and round trip + vm_compute correspondence", "DESIGN.md 7/C17"),
- 'C18': ("Coq proofs about the vertical/horizontal renderers and vertex-id schemes + vm_compute correspondence", "DESIGN.md 7/C18"),
+ 'C18': ("Coq proofs about the vertical/horizontal renderers and vertex-id schemes + vm_compute correspondence + translator tie (glyph tables regenerated from bigtree/utils/constants.py and proved equal to the model's on every run)", "DESIGN.md 7/C18"),
  'C19': ("Coq proofs over exact rationals for the Reingold-Tilford model + tolerance-based correspondence with the float implementation", "DESIGN.md 7/C19"),
 }
 sys.path.insert(0, V); sys.path.insert(0, '/repo')
